@@ -16,6 +16,14 @@ CHECKS = {
             "emitted solutions only (intermediate trees are judged against the grammar as the reader declares it, {1,}); "
             "trusted: TLC, the IR renderer",
             "TLA+ definition of derivations evaluated by TLC on trees recorded from real fuzzing/search runs (trace validation)"),
+    "C02": ("model_checking",
+            "Evaluator.tla (invariant EmittedSat) model-checked by TLC; real searches in production mode on specs whose where / "
+            "extra constraints come from the constraint IR generator (incl. atoms that raise) and on specs with computed "
+            "repetitions; every emitted tree is re-judged from scratch by TLC: Constraint.Sat for each constraint "
+            "(Trace_Constraint, event E) and FanIR.Valid with the computed counts (Trace_Tree)",
+            "bounded: 60+20 (quick) / 900+300 (thorough) searches; only constraints expressible in the IR; no soft constraints; "
+            "trusted: TLC, the IR renderers",
+            "TLA+ constraint semantics + derivation definition evaluated by TLC on solutions recorded from real searches"),
     "C03": ("model_checking",
             "Evaluator.tla (acceptance rule on exact counts, fitness cache, solution set) model-checked by TLC; the full "
             "(h,r,hs,rs) case table written by TLC is replayed on the real Evaluator; real search runs on specs with every "
@@ -23,6 +31,15 @@ CHECKS = {
             "bounded: h,r <= 9 (quick) / 16 (thorough); satisfaction in end-to-end runs judged by brand-new constraint "
             "objects; trusted: TLC, CPython",
             "TLA+ model (TLC exhaustive) + TLC-generated case table replayed into the code + TLC trace validation of recorded evaluator calls"),
+    "C11": ("model_checking",
+            "Evaluator.tla with in-place edits and key collisions (Coherent; stale/collide sanity configs fail); every TLC-enumerated "
+            "history of take / edit-in-place / evaluate over four abstract trees is replayed on a real Evaluator with real "
+            "constraints and compared with the specification and a brand-new evaluator; all derivations of ambiguous words are "
+            "evaluated in both orders by one evaluator; every evaluate_individual return of real searches (two runs per spec "
+            "object, nested quantifiers, computed repetitions) is compared with a fresh evaluator and validated by Trace_Eval",
+            "bounded: histories of 5 operations (35% sample quick, all thorough), 3 ambiguous specs, 8 / 48 search runs; failing "
+            "parts compared by position and constraint kind",
+            "TLA+ model (TLC exhaustive) + TLC-enumerated histories replayed into the real evaluator + TLC trace validation"),
     "C12": ("model_checking",
             "ParserCache.tla model-checked by TLC (store-on-exhaustion discipline satisfies HistoryIndependent on every "
             "history up to the bound, the implementation-shaped discipline is shown to violate it); every TLC-enumerated "
@@ -56,6 +73,14 @@ CHECKS = {
             "bounded: 30 / 400 grammars + 9 templates, inputs <= 5 / 6 units; non-termination = budget overrun (>= 200000 "
             "admissions or 20 s CPU; terminating runs stay below 2500 admissions) or an endless forest; F16/F17/F29 known",
             "TLA+ liveness model (TLC, fairness) + budgeted real parses over TLC-enumerated inputs"),
+    "C07": ("model_checking",
+            "Constraint.tla states the meaning of selectors (. .. [i] [i:j]), atoms that may raise, counts, groups, formula-level "
+            "and/or and nested forall/exists, eager and lazy; trees are the derivations TLC enumerates with Lang.tla for three "
+            "grammars plus fuzzed trees; generated constraints are built by Fandango's own front end and check()ed eagerly and "
+            "lazily; every (constraint, tree, verdict) triple is judged by TLC (Trace_Constraint)",
+            "bounded: 210 (quick) / 3600 (thorough) constraints of depth <= 2 / 3 x ~50 / 160 trees per grammar; calibrated "
+            "readings documented in DESIGN.md (int of an empty selection is 0; raising selector = not satisfied)",
+            "TLA+ semantics evaluated by TLC on verdicts recorded from the real constraint objects over TLC-enumerated trees"),
     "C09": ("model_checking",
             "TreeValue.tla: reference value semantics (bits/bytes/text over the leaf sequence) and the implementation-shaped "
             "value object (append / flush / views) folded subtree by subtree; TLC checks that they agree for every leaf "
